@@ -199,6 +199,11 @@ def instrument(obj, label):
         return _c.__getattribute__(self, name)
 
     def sa(self, name, value, _c=cls):
+        if type(value) is dict and not name.startswith('__'):
+            # a dict stored on a shared object at run time (a lazily built cache, a guards table): its item writes are events too
+            ld = LogDict(value)
+            ld._label = label + '.' + name
+            value = ld
         REC.hit('W', label, name, token(value), lambda: _c.__setattr__(self, name, value))
 
     try:
